@@ -77,7 +77,7 @@ func runC03(c *Ctx) {
 		}
 		c.obI("R03.1", ci, "header-lookup-canonical", ok, "a parameter is looked up by its declared name, canonicalised (http.CanonicalHeaderKey) when its location is header", why)
 	}
-	c.obF("R03.1", rv, "lookups", nGet >= 3, "readValue looks the parameter up", fmt.Sprintf("%d lookups", nGet))
+	c.obRF("R03.1", rv, "lookups", nGet >= 3, "readValue looks the parameter up", fmt.Sprintf("%d lookups", nGet))
 	// every direct index into an http.Header in library code
 	for _, fn := range p.LibFuncs() {
 		for _, in := range instrs(fn) {
@@ -94,6 +94,7 @@ func runC03(c *Ctx) {
 				continue
 			}
 			ok := false
+			undecidedCaller := false
 			why := "key " + describe(key)
 			if s, isC := constString(key); isC {
 				ok = http.CanonicalHeaderKey(s) == s
@@ -120,6 +121,9 @@ func runC03(c *Ctx) {
 						if !isC || http.CanonicalHeaderKey(s) != s {
 							ok = false
 							why = "caller " + fnName(caller) + " passes a key that is not a canonical constant"
+							if !isC && p.involvesNovelty(caller) {
+								undecidedCaller = true // a forwarding layer unknown to the baseline: who supplies the key cannot be told
+							}
 						}
 					}
 				}
@@ -134,6 +138,10 @@ func runC03(c *Ctx) {
 						ok = t == "net/http.Header" || strings.HasPrefix(t, "net/textproto.MIMEHeader")
 					}
 				}
+			}
+			if !ok && undecidedCaller {
+				c.obRI("R03.1", in, "direct-header-index", false, "a direct index into an http.Header uses a canonical key", why+" [not a verdict: the key passes through code unknown to the baseline]")
+				continue
 			}
 			c.obI("R03.1", in, "direct-header-index", ok, "a direct index into an http.Header uses a canonical key (constant, CanonicalHeaderKey(..), a key copied from another header map, or a parameter that every in-repo caller supplies as a canonical constant)", why)
 		}
@@ -157,7 +165,7 @@ func runC03(c *Ctx) {
 			c.obI("R03.2", fa, "schema-deref-guarded", g, "Parameter.Schema is only set for body parameters: it is dereferenced only under Schema != nil (or In == body)", "unguarded dereference of param.Schema")
 		}
 	}
-	c.obF("R03.2", p.Fn("(*rt/middleware.UntypedRequestBinder).Bind"), "schema-sites", nSchema >= 1, "the Schema fallback exists", "")
+	c.obRF("R03.2", p.Fn("(*rt/middleware.UntypedRequestBinder).Bind"), "schema-sites", nSchema >= 1, "the Schema fallback exists", "")
 
 	// R03.3 typeForSchema total
 	tf := p.Fn("(*rt/middleware.untypedParamBinder).typeForSchema")
@@ -185,7 +193,7 @@ func runC03(c *Ctx) {
 			guardedByNoKnownType(tf, r, knownType)
 		c.obI("R03.3", r, "nil-type-only-for-unknown", ok, "typeForSchema yields no Go type only for an array without typed items or for a type it does not know: every known type (with or without format) maps to a Go type", "a declared type the language allows (e.g. number without format) falls through to `return nil`, which sends the binder to dereference a nil Schema")
 	}
-	c.obF("R03.3", tf, "has-fallback", nNil >= 1, "typeForSchema has an unknown-type fallback", "")
+	c.obRF("R03.3", tf, "has-fallback", nNil >= 1, "typeForSchema has an unknown-type fallback", "")
 
 	// the element type of an array is computed from the ITEMS' declaration
 	nRec := 0
@@ -212,7 +220,7 @@ func runC03(c *Ctx) {
 		okT, okBase, okI := okAll, okAll, okAll
 		c.obI("R03.3", ci, "item-type-from-items", okT && okBase && okI, "the element type of an array parameter is computed from the items' own type, FORMAT and nested items (int8/int16/int32 items keep their width, so out-of-width literals are refused)", "the recursive call is not fed items.Type, items.Format, items.Items")
 	}
-	c.obF("R03.3", tf, "recurses-into-items", nRec == 1, "typeForSchema recurses into array items", "")
+	c.obRF("R03.3", tf, "recurses-into-items", nRec == 1, "typeForSchema recurses into array items", "")
 
 	// R03.4 reflect typestate on default-derived values
 	ruleR03_4(c)
@@ -226,7 +234,7 @@ func runC03(c *Ctx) {
 		{"strconv.ParseFloat", "(reflect.Value).OverflowFloat", "(reflect.Value).SetFloat"},
 	} {
 		parses := callsIn(sf, n.parse)
-		c.obF("R03.5", sf, "parses-"+n.parse, len(parses) == 1, "numeric text is parsed by strconv", "")
+		c.obRF("R03.5", sf, "parses-"+n.parse, len(parses) == 1, "numeric text is parsed by strconv", "")
 		for _, pc := range parses {
 			a := pc.Common().Args
 			okArgs := false
@@ -299,11 +307,11 @@ func runC03(c *Ctx) {
 	ub := p.Fn("(*rt/middleware.UntypedRequestBinder).Bind")
 	binds := callsIn(ub, "(*rt/middleware.untypedParamBinder).Bind")
 	vals := callsIn(ub, "(github.com/go-openapi/validate.EntityValidator).Validate")
-	c.obF("R03.6", ub, "binds-and-validates", len(binds) == 1 && len(vals) == 1, "the request binder binds each parameter and runs its validator", fmt.Sprintf("%d/%d", len(binds), len(vals)))
+	c.obRF("R03.6", ub, "binds-and-validates", len(binds) == 1 && len(vals) == 1, "the request binder binds each parameter and runs its validator", fmt.Sprintf("%d/%d", len(binds), len(vals)))
 	if len(binds) == 1 && len(vals) == 1 {
 		b := binds[0].(*ssa.Call)
 		loops := mapLoops(ub, vFieldLoad("rt/middleware.UntypedRequestBinder", "Parameters", nil))
-		c.obF("R03.6", ub, "parameter-loop", len(loops) == 1, "one pass over the declared parameters", "")
+		c.obRF("R03.6", ub, "parameter-loop", len(loops) == 1, "one pass over the declared parameters", "")
 		for _, l := range loops {
 			c.obI("R03.6", l.Next, "every-parameter-bound", l.everyIteration(func(in ssa.Instruction) bool {
 				return in == ssa.Instruction(b) || isAppendOfCall(nil, "github.com/go-openapi/errors.New")(in)
@@ -540,7 +548,7 @@ func runC03(c *Ctx) {
 				c.obI("R03.7", ci, "scalar-takes-last-occurrence", okLast, "a scalar parameter is bound from the LAST occurrence of its key: the text handed to setFieldValue is data[len(data)-1]", "the text bound is "+describe(o.V))
 			}
 		}
-		c.obF("R03.7", bv, "scalar-text-selected", n >= 1, "bindValue selects one occurrence of a scalar parameter", "")
+		c.obRF("R03.7", bv, "scalar-text-selected", n >= 1, "bindValue selects one occurrence of a scalar parameter", "")
 	}
 }
 
@@ -677,5 +685,5 @@ func ruleR03_4(c *Ctx) {
 			}
 		}
 	}
-	c.obF("R03.4", fns[0], "sites", n >= 6, "default-derived reflect operations enumerated", fmt.Sprintf("%d sites", n))
+	c.obRF("R03.4", fns[0], "sites", n >= 6, "default-derived reflect operations enumerated", fmt.Sprintf("%d sites", n))
 }
